@@ -5,11 +5,13 @@ CONSTANTS
   ExportScripts = FALSE
   EnableFaults = TRUE
   EnableRestart = TRUE
+  EnableDebugWrites = TRUE
   SrcVals = {0, 3, 255}
   Dts = {1, 2, 5}
 VIEW View
 CHECK_DEADLOCK FALSE
 INVARIANTS
+  WritesOnlyAtBoundaries
   WarmKeepsExactlyRetained
   ColdEqualsFresh
   RestartResets
